@@ -588,7 +588,8 @@ Lemma sys_wr_cases : forall cid fd src exact w k w',
     (exists l what, o = Some l /\ k = KNone /\ w' = desync what w1 /\ sym_eqb what "fuel" = false) \/
     (exists off n rest offered, o = Some ("r", ASym "wr" :: AInt off :: AInt n :: rest) /\
        let w2 := emit (obs "wdata" [ABytes offered]) w1 in
-       ((n <? 0 = true /\ is_eagain_arg rest = true /\ (exists e, k = KErr e /\ is_eagain e = true) /\ w' = w2) \/
+       ((n <? 0 = true /\ is_eagain_arg rest = true /\ (exists e, k = KErr e /\ is_eagain e = true) /\
+         w' = ghost "eagain" cid [] w2) \/
         (n <? 0 = true /\ is_eagain_arg rest = false /\ (exists e, k = KErr e /\ is_eagain e = false) /\
          w' = ghost "fail" cid [] w2) \/
         (n <? 0 = false /\ k = KOk n [] /\ exists b, w' = ghost "hand" cid b w2)))).
@@ -661,8 +662,9 @@ Proof.
       destruct E4 as [E4|[? [E _]]]; [|discriminate].
       split; [reflexivity|split; [exact E2|split; [exact E3|split; [exact E5|exact E4]]]]. }
     destruct Hc as [[Hn [He [[e [-> Hee]] ->]]]|[[Hn [He [[e [-> Hee]] ->]]]|[Hn [-> [b ->]]]]].
-    + rewrite Hee. eapply Inv_weaken; [exact H2|].
-      intros c _ [E1 [E2 [E3 [E4 E5]]]]. rewrite Hn, He in E1.
+    + rewrite Hee. unfold ghost. eapply Inv_emit; [exact H2|reflexivity|].
+      intros c _ [E1 [E2 [E3 [E4 E5]]]]. rewrite Hn, He in E1. cbn [andb negb] in E1.
+      exists c. split; [cbn; rewrite E1; reflexivity|].
       split; [exact E1|split; [exact E2|split; [exact E3|split; [left; exact E5|exact E4]]]].
     + rewrite Hee. unfold ghost. eapply Inv_emit; [exact H2|reflexivity|].
       intros c _ [E1 [E2 [E3 [E4 E5]]]]. rewrite Hn, He in E1. cbn [andb negb] in E1.
